@@ -1,10 +1,10 @@
 package main
 
 import (
-	"errors"
 	"encoding/base64"
 	"encoding/binary"
 	"encoding/json"
+	"errors"
 	"fmt"
 	"math/rand"
 	"net"
@@ -269,10 +269,15 @@ type rxEntry struct {
 	badB64     bool
 	extraField bool
 	omit       int // bit set of optional numeric keys left out of the entry: 1 rssi, 2 lsnr, 4 tmst, 8 chan, 16 rfch
+	size       int // the entry's "size" key when it is not the length of the data (-1: it is)
 }
 
 func entryJSON(e rxEntry) string {
 	d := base64.StdEncoding.EncodeToString(e.data)
+	size := len(e.data)
+	if e.size >= 0 {
+		size = e.size // what is forwarded is what "data" holds, whatever "size" says
+	}
 	if e.badB64 {
 		d = "!!" + d + "*"
 	}
@@ -282,7 +287,7 @@ func entryJSON(e rxEntry) string {
 	}
 	if e.omit == 0 {
 		return fmt.Sprintf(`{"time":"2017-02-01T23:55:55.233Z","tmst":%d,"freq":868.1,"chan":%d,"rfch":%d,"modu":"LORA","datr":"%s","codr":"4/5","rssi":%d,"lsnr":%s,"size":%d,"data":"%s"%s}`,
-			e.tmst, e.ch, e.rfch, e.datr, e.rssi, e.lsnr, len(e.data), d, extra)
+			e.tmst, e.ch, e.rfch, e.datr, e.rssi, e.lsnr, size, d, extra)
 	}
 	// an entry that leaves optional keys out (FSK entries carry no lsnr, the per-antenna layout no top-level rssi/lsnr):
 	// each missing key reads as the zero value, whatever earlier datagrams carried
@@ -304,7 +309,7 @@ func entryJSON(e rxEntry) string {
 	if e.omit&2 == 0 {
 		parts = append(parts, fmt.Sprintf(`"lsnr":%s`, e.lsnr))
 	}
-	parts = append(parts, fmt.Sprintf(`"size":%d`, len(e.data)), fmt.Sprintf(`"data":"%s"`, d))
+	parts = append(parts, fmt.Sprintf(`"size":%d`, size), fmt.Sprintf(`"data":"%s"`, d))
 	return "{" + strings.Join(parts, ",") + extra + "}"
 }
 
@@ -402,7 +407,7 @@ func runGwHistory(rng *rand.Rand, w *Writer, suite string, malformed bool) {
 			if rng.Intn(2) == 0 {
 				for si := range gw.socks {
 					tok := someToken(rng)
-					en := rxEntry{tmst: rng.Uint32(), ch: uint8(rng.Intn(8)), datr: datrs[rng.Intn(len(datrs))], rssi: -50, lsnr: "7.25", data: randBytes(rng, 1+rng.Intn(20))}
+					en := rxEntry{tmst: rng.Uint32(), ch: uint8(rng.Intn(8)), datr: datrs[rng.Intn(len(datrs))], rssi: -50, lsnr: "7.25", data: randBytes(rng, 1+rng.Intn(20)), size: -1}
 					pkt := append(header(2, tok, 0, e), []byte(`{"rxpk":[`+entryJSON(en)+`]}`)...)
 					w.Begin(suite + " datagram " + hx(pkt))
 					gw.send(si, pkt)
@@ -432,7 +437,12 @@ func runGwHistory(rng *rand.Rand, w *Writer, suite string, malformed bool) {
 			for k := 0; k < ne; k++ {
 				en := rxEntry{tmst: []uint32{0, 1, 4293967295, 4293967296, 4289967296, 4294967295, rng.Uint32()}[rng.Intn(7)], ch: uint8([]int{8, 9, 255, 7, 128, rng.Intn(256)}[rng.Intn(6)]), rfch: uint8(rng.Intn(2)),
 					datr: datrs[rng.Intn(len(datrs))], rssi: int32(rng.Intn(300) - 200), lsnr: []string{"0", "-20", "9.5", "7.25", "-11.5"}[rng.Intn(5)],
-					data: randBytes(rng, rng.Intn(40)), badB64: rng.Intn(12) == 0, extraField: rng.Intn(8) == 0}
+					data: randBytes(rng, rng.Intn(40)), badB64: rng.Intn(12) == 0, extraField: rng.Intn(8) == 0, size: -1}
+				if rng.Intn(6) == 0 {
+					// a "size" that is not the length of the data (short: a prefix would be a different frame; long; zero)
+					en.size = []int{0, rng.Intn(len(en.data) + 1), len(en.data) + 1 + rng.Intn(20), 12}[rng.Intn(4)]
+					w.Count("gw.entry-with-wrong-size")
+				}
 				if rng.Intn(3) != 0 {
 					en.ch = uint8(rng.Intn(8))
 				}
@@ -536,6 +546,9 @@ func gwSuite(name string, malformed bool, quickN, thoroughN int) suiteFunc {
 }
 
 func init() {
+	// C01 behind the forwarder: what reaches the pipeline is what the gateway reported, byte for byte
+	gw01 := gwSuite("C01", false, 15, 300)
+	suites["gwC01"] = gw01
 	suites["C15"] = gwSuite("C15", false, 60, 1500)
 	suites["C16"] = gwSuite("C16", false, 60, 1500)
 	suites["C17"] = gwSuite("C17", false, 60, 1500)
